@@ -43,3 +43,12 @@ QUICK_IDS = set(e.id for e in catalogue("quick"))
 
 def all_entries():
     return catalogue("thorough")
+
+
+def demote(obligations, entry_ids, prefixes=None):
+    """Move the obligations of the given catalogue entries (optionally only those with the given id prefixes) to the thorough tier only."""
+    ids = set(entry_ids)
+    for o in obligations:
+        parts = o.id.split(":")
+        if len(parts) >= 2 and parts[-1] in ids and (prefixes is None or parts[0] in prefixes):
+            o.tiers = ("thorough",)
